@@ -38,7 +38,7 @@ REQUIRED_LABELS = ["container:md", "container:csv", "container:xlsx", "container
                    "file_type:explicit", "file_type:implicit",
                    "noise:typed-int", "noise:typed-intfloat", "noise:typed-float", "noise:typed-bool", "noise:pad", "noise:nbsp",
                    "noise:trailing-rows", "noise:trailing-cols", "noise:blank-rows", "noise:blank-cols", "noise:blank-rows-60",
-                   "noise:blank-cols-20", "noise:header-pad", "stem:other", "has-itemsets", "has-warnings"]
+                   "noise:blank-cols-20", "noise:header-pad", "noise:typed-header", "stem:other", "has-itemsets", "has-warnings"]
 
 NBSP = "\xa0"
 INT_RE = re.compile(r"^-?(0|[1-9][0-9]{0,14})$")
@@ -108,6 +108,15 @@ def _cases(draw):
                     r[k] = g.pick(NUMTEXT) if not k.split("::")[0] in ("image", "audio", "video") else r[k]
     if "settings" in form and g.p("_", 0.5):
         form["settings"]["version"] = g.pick(["2024010101", "7", "3.5"])
+    if g.p("_", 0.2):
+        # columns whose header is a number: in a spreadsheet such a header cell may be typed
+        for n, _ in model.walk(form["nodes"]):
+            if n["k"] == "q" and g.p("_", 0.4):
+                n["c"]["2024"] = "note to self"
+        for lst in form.get("lists", []):
+            for r in lst["rows"]:
+                if g.p("_", 0.5):
+                    r["7"] = "x"
     form = _sanitize(form)
     form["_langs"] = langs
     kinds = [k for k in NOISES if g.p("_", 0.45)] or [g.pick(NOISES)]
@@ -181,6 +190,9 @@ def make_grids(sheets, spec, out_labels):
         for h in cols:
             if h is None:
                 hrow.append(r0.choice([None, None, "", " "]))
+            elif "typed" in kinds and typed_value(r0, h)[1] in ("typed-int", "typed-intfloat", "typed-float"):
+                hrow.append(typed_value(r0, h)[0])
+                out_labels.add("noise:typed-header")
             elif "header-pad" in kinds and r0.random() < 0.4:
                 hrow.append(r0.choice([" ", "  ", ""]) + h + r0.choice([" ", "   ", "\t"]))
                 out_labels.add("noise:header-pad")
